@@ -48,6 +48,27 @@ SHIPPED_CASES = [
 
 # ---------------------------------------------------------------------------------------------
 
+def index_wf(names):
+    """the preconditions of the name index (C16) evaluated on the node names of a really parsed graph.
+    `WFb` (what C16's lookup exactness, order independence and contains/get agreement are proved under): names
+    distinct, non-empty, the first variant of every name occurs in no name at a later position.  The full `WF`
+    additionally has "no variant repeated within a name" (only needed for "each match returned once").
+    Returns (violated WFb clauses, violated extra clauses)."""
+    split = [n.split(".") for n in names]
+    firsts = {n[0] for n in split}
+    wfb, extra = set(), set()
+    if len(set(names)) != len(names):
+        wfb.add("names-not-distinct")
+    for n in split:
+        if not n or n == [""]:
+            wfb.add("empty")
+        if any(v in firsts for v in n[1:]):
+            wfb.add("first-variant-at-later-position")
+        if len(set(n)) != len(n):
+            extra.add("variant-repeated-within-a-name")
+    return sorted(wfb), sorted(extra)
+
+
 def lean_verdict(out_line):
     """'ok' | 'fail a … ; b …'  ->  {clause: [witness strings]}"""
     if out_line == "ok":
@@ -248,6 +269,19 @@ def run_cases(ctx, cases, n_mut=2):
         ctx.extra["parse_seconds"] = round(ctx.extra.get("parse_seconds", 0) + time.time() - t0, 1)
         ctx.extra["nodes_total"] = ctx.extra.get("nodes_total", 0) + n
         check_clone_sources(ctx, case, graph)
+        wfb, extra = index_wf([nd["name"] for nd in x["nodes"]])
+        ctx.count("index_WFb.ok" if not wfb else "index_WFb.violated")
+        ctx.count("index_WF_full.ok" if not (wfb or extra) else "index_WF_full.violated")
+        for clause in wfb + extra:
+            ctx.count("index_wf." + clause)
+        # the lookups the parser relies on must nevertheless be exact on these names (naive scan as oracle)
+        for nd in x["nodes"][:6]:
+            q = nd["setless"]
+            got = sorted(n.id for n in graph.get_nodes_by_name(q))
+            want = sorted(m["id"] for m in x["nodes"] if gl.name_matches(q, m["name"]))
+            if got != want:
+                ctx.violate("name-lookup-not-exact", f"get_nodes_by_name({q}) = {got[:3]}…, contiguous matches are "
+                            f"{want[:3]}…", dict(case))
         muts = [mutate_graph(ctx.rng, x) for _ in range(n_mut)]
         start = len(lines)
         lines += gl.to_lines(x) + ["check"]
